@@ -203,7 +203,8 @@ class Server:
         self.log = os.path.join(self.dir, 'fake_log.jsonl')
         cmd = [core.PY, '-m', 'yalafi.shell', '--no-config', '--lt-command',
                '%s %s %s' % (core.PY, shellrun.FAKE, self.ctrl),
-               '--as-server', str(self.port)] + shell_args(c, 'server')
+               '--as-server', str(self.port)] + shell_args(c, 'server') \
+            + list(c.get('extra_args', []))
         self.set_answers(c['answers'])
         self.p = subprocess.Popen(cmd, cwd=self.dir, env=core.repo_env(),
                                   stdout=subprocess.PIPE, stderr=subprocess.PIPE)
